@@ -39,7 +39,47 @@ def run(rep, tier, seed, replay=None, proof_ok=True):
     rep.coverage['input_distribution'] = stats
     dis = ic.compare_all(rep, texts, q, project, 'C08')
     decide(rep, dis, 'C08', 'correspondence impl.instantiate_namespace vs Inst/Model.v on the C08 projection')
+    source_lists(rep, texts)
     return 0
+
+
+def tmpl_nodes(x, acc):
+    if isinstance(x, list):
+        if x and x[0] == 'tmpl':
+            acc.append(sexp.dumps(x))
+        for y in x:
+            tmpl_nodes(y, acc)
+    return acc
+
+
+def source_lists(rep, texts):
+    """"exactly the product of THOSE lists": the lists the instantiator starts from (the parse tree's template nodes) must be
+    the lists written in the file - every entry, repeated entries included, in order.  The reference is the model's parser
+    (Parse/Peg.v on the regenerated grammar + Parse/Build.v), which keeps every entry."""
+    import common
+    from props import parsecommon as pc
+    model = common.Model()
+    shown = 0
+    try:
+        for name, text in texts:
+            i = pc.impl_parse(text)
+            if i[0] != 'ok':
+                continue
+            m = pc.model_parse(model, text)
+            if m[0] != 'ok':
+                rep.bump('source_lists_model_' + m[0])
+                continue
+            a, b = tmpl_nodes(sexp.loads(sexp.dumps(i[1])), []), tmpl_nodes(m[1], [])
+            if a != b:
+                if shown < 3:
+                    shown += 1
+                    rep.violation({'kind': 'counterexample', 'what': 'the template parameter / instantiation lists of the parse tree are '
+                                   'not the lists written in the file, so the instantiations are not their product', 'input': text,
+                                   'implementation': a[:6], 'source': b[:6]})
+            else:
+                rep.bump('source_lists_equal')
+    finally:
+        model.close()
 
 
 def report_known(rep, q, prop):
